@@ -40,7 +40,8 @@ META = dict(
          "the model's two non-advance tests, for the model's own recursive calls), every element id of the table, every "
          "location and flags and every fuel > r id, the model's _parse does not answer `hang` (acyclic_terminates; "
          "acyclic_terminates_uniform for one fuel bound serving the whole table); likewise parse_string incl. parse_all "
-         "(parseString_terminates). advancing_of_nonempty gives the simpler sufficient condition (such bodies / ignorables "
+         "(parseString_terminates) and scan_string, whose own loop budget 2*len+4 never runs out (scanString_terminates). "
+         "advancing_of_nonempty gives the simpler sufficient condition (such bodies / ignorables "
          "never match empty); exG_advancing discharges it for a concrete 4-node grammar on every input. The inner loops' "
          "private budgets (len+2) are shown never to run out (positions strictly increase and stay <= len+1). PARTIAL: "
          "recursive grammars (Forward cycles) are outside the termination theorem, Advancing is a semantic hypothesis "
@@ -66,7 +67,7 @@ THEOREMS = [
     "PP.Parse.parse_noIdx",
     "PP.Parse.parseImpl_idx",
     "PP.LineCol.C14_linecol_consistent",
-    "PP.Parse.acyclic_terminates", "PP.Parse.acyclic_terminates_uniform", "PP.Parse.parseString_terminates",
+    "PP.Parse.acyclic_terminates", "PP.Parse.acyclic_terminates_uniform", "PP.Parse.parseString_terminates", "PP.Parse.scanString_terminates",
     "PP.Parse.advancing_of_nonempty", "PP.Parse.exG_advancing", "PP.Parse.rankOk_spec",
 ]
 
